@@ -151,6 +151,67 @@ func (fc *FuncCtx) ownAssign(st *State, lhs ast.Expr, r region) {
 	st.regions[key] = r
 }
 
+// ownAssignLit: x := T{F: e, ...} — the slice, pointer and map fields of x point where the literal's operands point.
+func (fc *FuncCtx) ownAssignLit(st *State, lhs, rhs ast.Expr) {
+	if !fc.ownOn() {
+		return
+	}
+	cl, ok := unparen(rhs).(*ast.CompositeLit)
+	if !ok {
+		if ue, isU := unparen(rhs).(*ast.UnaryExpr); isU && ue.Op == token.AND {
+			cl, ok = unparen(ue.X).(*ast.CompositeLit)
+		}
+		if !ok {
+			return
+		}
+	}
+	key := exprStr(unparen(lhs))
+	if key == "_" {
+		return
+	}
+	for _, el := range cl.Elts {
+		kv, ok := el.(*ast.KeyValueExpr)
+		if !ok {
+			continue
+		}
+		name, ok := kv.Key.(*ast.Ident)
+		if !ok {
+			continue
+		}
+		switch fc.typeOf(kv.Value).Underlying().(type) {
+		case *types.Slice, *types.Pointer, *types.Map:
+			if r := fc.regionOf(st, kv.Value); r.base != "" {
+				st.regions[key+"."+name.Name] = r
+			}
+		}
+	}
+}
+
+// ownConsume: a call whose contract says `opt consumes <param>` keeps what that argument points to (a cache insert, a
+// queue): the regions reachable from the argument are handed over, like the regions of a value sent on a channel.
+func (fc *FuncCtx) ownConsume(st *State, arg ast.Expr, n ast.Node) {
+	if !fc.ownOn() {
+		return
+	}
+	var rs []region
+	if r := fc.regionOf(st, arg); r.base != "" {
+		rs = append(rs, r)
+	}
+	key := exprStr(unparen(arg))
+	for k, r := range st.regions {
+		if strings.HasPrefix(k, key+".") {
+			rs = append(rs, r)
+		}
+	}
+	for _, r := range rs {
+		if r.borrowed {
+			fc.oblige(st, "own.fresh", "", "false", n, "the value handed over ("+exprStr(arg)+") points into a buffer ("+r.base+") that the caller keeps and reuses; it must be a fresh copy")
+			continue
+		}
+		st.released[r.base] = true
+	}
+}
+
 // ownUse: reading a location whose region is gone.
 func (fc *FuncCtx) ownUse(st *State, e ast.Expr) {
 	if !fc.ownOn() || fc.quiet {
@@ -304,6 +365,17 @@ func (fc *FuncCtx) ownLoopHead(h *State, locs []havocLoc) {
 			nr := fc.newRegion("carried")
 			nr.borrowed = r.borrowed
 			h.regions[k] = nr
+		}
+	}	// a slice-typed local the body assigns may carry a buffer from an earlier iteration
+	for _, l := range locs {
+		if l.obj == nil || len(l.path) > 0 || !fc.isLocal(l.obj) {
+			continue
+		}
+		if _, isSlice := l.obj.Type().Underlying().(*types.Slice); !isSlice {
+			continue
+		}
+		if _, have := h.regions[l.obj.Name()]; !have {
+			h.regions[l.obj.Name()] = fc.newRegion("carried")
 		}
 	}
 }
